@@ -13,6 +13,8 @@ import (
 	"math/big"
 	"os"
 	"path/filepath"
+	"reflect"
+	"regexp"
 	"sort"
 	"strconv"
 	"strings"
@@ -61,12 +63,19 @@ type Case struct {
 	Net      *int64 `json:"net,omitempty"` // kind net: substrateNetwork
 	GoInts   bool   `json:"goints,omitempty"` // direct: numbers handed over as Go int (as the repo's tests do) instead of float64
 
+	// chain: the chain (domain) id as written - an integer, a fraction, a string or a bool; nil = 1.
+	// IdDot: an integer id is spelled as a float ("1.0") in the JSON text the loaders read (direct: float64).
+	Id    *JV  `json:"id,omitempty"`
+	IdDot bool `json:"iddot,omitempty"`
+
 	Locals       []Entry `json:"locals,omitempty"`
 	Shared       []Entry `json:"shared,omitempty"`
 	SharedIntIds bool    `json:"sharedIntIds,omitempty"` // shared ids as Go int (hand-built config) instead of float64 (fetched JSON)
 }
 
 type ChainObs struct {
+	Id       string `json:"id"` // GeneralChainConfig.Id of the constructed config; AId: after the uses
+	AId      string `json:"aid"`
 	Interval string `json:"interval"`
 	Confs    string `json:"confs"`
 	Start    string `json:"start"`
@@ -388,6 +397,7 @@ func load(c Case, loader string, domains []map[string]interface{}, shared *confi
 		if e != nil {
 			panic(e)
 		}
+		b = spellIds(c, b)
 		p := filepath.Join(tmpDir, "config.json")
 		if e := os.WriteFile(p, b, 0o644); e != nil {
 			panic(e)
@@ -400,7 +410,7 @@ func load(c Case, loader string, domains []map[string]interface{}, shared *confi
 			if e != nil {
 				panic(e)
 			}
-			env["SYG_CHAINS"] = string(b)
+			env["SYG_CHAINS"] = string(spellIds(c, b))
 		}
 		for k, v := range env {
 			os.Setenv(k, v)
@@ -415,6 +425,53 @@ func load(c Case, loader string, domains []map[string]interface{}, shared *confi
 	panic("unknown loader " + loader)
 }
 
+var idNumber = regexp.MustCompile(`"id":(-?[0-9]+)([,}])`)
+
+// spellIds rewrites the integer ids of the JSON text as floats ("id":257 -> "id":257.0) for IdDot cases.
+func spellIds(c Case, b []byte) []byte {
+	if !c.IdDot {
+		return b
+	}
+	return idNumber.ReplaceAll(b, []byte(`"id":$1.0$2`))
+}
+
+// idVal is the chain id of a chain case as the Go value a decoded document carries.
+func idVal(c Case) interface{} {
+	switch {
+	case c.Id == nil:
+		return num(1, c.GoInts)
+	case c.Id.N != nil:
+		return num(*c.Id.N, c.GoInts && !c.IdDot)
+	case c.Id.R != nil:
+		return float64(c.Id.R[0]) / float64(c.Id.R[1])
+	case c.Id.S != nil:
+		return *c.Id.S
+	case c.Id.B != nil:
+		return *c.Id.B
+	}
+	panic("empty id")
+}
+
+// sharedFor is the shared configuration a chain case is loaded against: one entry that carries only the
+// id (the same id as the local entry, as a fetched shared configuration has it: float64).
+func sharedFor(c Case) *config.Config {
+	if c.Id == nil {
+		return &config.Config{ChainConfigs: []map[string]interface{}{{"id": 1}}}
+	}
+	d := c
+	d.GoInts = false
+	return &config.Config{ChainConfigs: []map[string]interface{}{{"id": idVal(d)}}}
+}
+
+// loadedId reads GeneralChainConfig.Id of a constructed chain config ("nil" if unset).
+func loadedId(cfg interface{}) string {
+	p := reflect.ValueOf(cfg).Elem().FieldByName("GeneralChainConfig").FieldByName("Id")
+	if p.IsNil() {
+		return "nil"
+	}
+	return strconv.FormatUint(p.Elem().Uint(), 10)
+}
+
 func num(v int64, goInts bool) interface{} {
 	if goInts {
 		return int(v)
@@ -423,7 +480,7 @@ func num(v int64, goInts bool) interface{} {
 }
 
 func chainMap(c Case) map[string]interface{} {
-	m := map[string]interface{}{"id": num(1, c.GoInts), "endpoint": "ws://domain.com", "name": "chain1", "type": c.Chain}
+	m := map[string]interface{}{"id": idVal(c), "endpoint": "ws://domain.com", "name": "chain1", "type": c.Chain}
 	switch c.Chain {
 	case "evm":
 		m["bridge"] = "0xd606A00c1A39dA53EA7Bb3Ab570BBE40b156EB66"
@@ -488,8 +545,12 @@ func construct(kind string, m map[string]interface{}) (o Obs) {
 	default:
 		panic("unknown chain kind " + kind)
 	}
-	co := &ChainObs{Interval: interval.String(), Confs: confs.String(), Start: start.String()}
+	co := &ChainObs{Id: loadedId(cfgObj), Interval: interval.String(), Confs: confs.String(), Start: start.String()}
 	useConfig(co, cfgObj, m, m0, str)
+	co.AId = loadedId(cfgObj)
+	if co.Id == "nil" || co.AId == "nil" {
+		return Obs{Bad: "accepted chain config without an id"}
+	}
 	return Obs{Ok: true, Chain: co}
 }
 
@@ -643,7 +704,7 @@ func run(c Case) Obs {
 		m := chainMap(c)
 		if c.Loader != "direct" {
 			// through the real loader, merged over a shared entry that only carries the id
-			cfg, err := load(c, c.Loader, []map[string]interface{}{m}, &config.Config{ChainConfigs: []map[string]interface{}{{"id": 1}}})
+			cfg, err := load(c, c.Loader, []map[string]interface{}{m}, sharedFor(c))
 			if err != nil {
 				return Obs{Err: err.Error()}
 			}
@@ -787,6 +848,85 @@ func required(kind string) []string {
 		return []string{"id", "endpoint", "name"}
 	}
 	return []string{"id", "endpoint", "name", "username", "password"}
+}
+
+// chain ids through the three constructors (directly, via the file loader, via SYG_CHAINS): the byte
+// range and its edges, ids that only fit after wrapping (256, 257, 511, 513, 65535, 65537, 2^31,
+// 2^32+1, 2^53), negative ids, non-integral ids, integers spelled as floats, ids written as strings /
+// bools - alone and combined with other settings / other reasons to reject.
+func genChainIds(r *vgen.Rng, tier string) []Case {
+	var out []Case
+	num := func(v int64) *JV { return &JV{N: i64(v)} }
+	frac := func(n, d int64) *JV { return &JV{R: &[2]int64{n, d}} }
+	ints := []int64{0, 1, 2, 254, 255, 256, 257, 511, 513, 65535, 65537, 1 << 31, 1<<32 + 1, 1 << 53, -1, -255}
+	fracs := []*JV{frac(3, 2), frac(511, 2), frac(513, 2), frac(1, 2), frac(-1, 2), frac(1025, 1024)}
+	others := []*JV{{S: str("1")}, {S: str("257")}, {S: str("")}, {S: str("1.0")}, {B: boolp(true)}, {B: boolp(false)}}
+	for _, k := range chainKinds {
+		for _, via := range vias {
+			for _, v := range ints {
+				out = append(out, Case{Kind: "chain", Chain: k, Loader: via, Id: num(v)})
+				if via == "direct" {
+					out = append(out, Case{Kind: "chain", Chain: k, Loader: via, Id: num(v), GoInts: true})
+				}
+			}
+			for _, v := range []int64{0, 1, 255, 256, 257} {
+				out = append(out, Case{Kind: "chain", Chain: k, Loader: via, Id: num(v), IdDot: true})
+			}
+			for _, v := range fracs {
+				out = append(out, Case{Kind: "chain", Chain: k, Loader: via, Id: v})
+			}
+			for _, v := range others {
+				out = append(out, Case{Kind: "chain", Chain: k, Loader: via, Id: v})
+			}
+		}
+	}
+	n := 60
+	if tier == "thorough" {
+		n = 3000
+	}
+	for i := 0; i < n; i++ {
+		c := Case{Kind: "chain", Chain: vgen.Pick(r, chainKinds), Loader: vgen.Pick(r, vias)}
+		switch r.Intn(6) {
+		case 0:
+			c.Id = num(int64(r.Range(0, 255)))
+		case 1:
+			c.Id = num(int64(r.Range(250, 520)))
+		case 2:
+			c.Id = num(int64(r.Range(0, 255)) + 256*int64(r.Range(1, 1<<20)))
+		case 3:
+			c.Id = num(-int64(r.Range(1, 70000)))
+		case 4:
+			// lowest terms: odd numerator over a power of two
+			c.Id = frac(2*int64(r.Range(-3, 600))+1, int64(1)<<uint(r.Range(1, 6)))
+		case 5:
+			c.Id = num(int64(r.U64() % (1 << uint(r.Range(9, 53)))))
+		}
+		pick := func() *int64 {
+			switch r.Intn(5) {
+			case 0, 1:
+				return nil
+			case 2:
+				return i64(int64(r.Range(-3, 3)))
+			default:
+				return i64(int64(r.U64()%(1<<uint(r.Range(1, 40)))) + 1)
+			}
+		}
+		c.Interval, c.Confs = pick(), pick()
+		if r.Bool() {
+			c.Start = i64(int64(r.U64() % (1 << uint(r.Range(1, 40)))))
+		}
+		if r.Chance(1, 12) {
+			c.Missing = vgen.Pick(r, required(c.Chain)[1:])
+		}
+		if c.Id.N != nil {
+			if c.Loader == "direct" {
+				c.GoInts = r.Bool()
+			}
+			c.IdDot = !c.GoInts && r.Chance(1, 4)
+		}
+		out = append(out, c)
+	}
+	return out
 }
 
 func genChains(r *vgen.Rng, tier string) []Case {
@@ -1305,6 +1445,7 @@ func gen(r *vgen.Rng, tier string) []Case {
 	out = append(out, genNets(r, tier)...)
 	out = append(out, genDurs(r, tier)...)
 	out = append(out, genChains(r, tier)...)
+	out = append(out, genChainIds(r, tier)...)
 	out = append(out, genMerges(r, tier)...)
 	return out
 }
@@ -1418,7 +1559,11 @@ func coq(c Case, o Obs) string {
 		return "Net " + vgen.Z(*c.Net) + " None"
 	case "chain":
 		kind := map[string]string{"evm": "Evm", "substrate": "Sub", "btc": "Btc"}[c.Chain]
-		in := "(mkChainIn " + kind + " " + vgen.Bool(c.Missing != "") + " " + optZ(c.Interval) + " " + optZ(c.Confs) + " " + optZ(c.Start) + ")"
+		id := "(JNum 1%Z)"
+		if c.Id != nil {
+			id = "(" + coqJV(*c.Id) + ")"
+		}
+		in := "(mkChainIn " + kind + " " + vgen.Bool(c.Missing != "") + " " + id + " " + optZ(c.Interval) + " " + optZ(c.Confs) + " " + optZ(c.Start) + ")"
 		if !o.Ok {
 			return "Chain " + in + " None None"
 		}
@@ -1432,9 +1577,9 @@ func coq(c Case, o Obs) string {
 			}
 			return "(Val " + zOfDec(s) + ")"
 		}
-		after := "(Some (mkAfter (mkChainCfg " + zOfDec(o.Chain.AInterval) + " " + zOfDec(o.Chain.AConfs) + " " + zOfDec(o.Chain.AStart) + ") " +
+		after := "(Some (mkAfter (mkChainCfg " + zOfDec(o.Chain.AId) + " " + zOfDec(o.Chain.AInterval) + " " + zOfDec(o.Chain.AConfs) + " " + zOfDec(o.Chain.AStart) + ") " +
 			vgen.Bool(o.Chain.Same) + " " + vgen.ListOf(o.Chain.Calcs, calcOf) + "))"
-		return "Chain " + in + " (Some (mkChainCfg " + zOfDec(o.Chain.Interval) + " " + zOfDec(o.Chain.Confs) + " " + zOfDec(o.Chain.Start) + ", " + calc + ")) " + after
+		return "Chain " + in + " (Some (mkChainCfg " + zOfDec(o.Chain.Id) + " " + zOfDec(o.Chain.Interval) + " " + zOfDec(o.Chain.Confs) + " " + zOfDec(o.Chain.Start) + ", " + calc + ")) " + after
 	case "merge":
 		impl := "None"
 		if o.Ok {
@@ -1491,6 +1636,9 @@ func kind(c Case) string {
 	case "port", "dur":
 		return c.Kind + "-" + c.Loader + "-" + c.Field
 	case "chain":
+		if c.Id != nil {
+			return "chainid-" + c.Chain + "-" + c.Loader
+		}
 		return "chain-" + c.Chain + "-" + c.Loader
 	case "net":
 		return "net-" + c.Loader
@@ -1540,7 +1688,7 @@ func main() {
 				t := strings.TrimLeft(c.Text, "+-")
 				return len(t) > 0 && t[0] >= '0' && t[0] <= '9'
 			case "chain":
-				return c.Interval != nil || c.Confs != nil || c.Missing != ""
+				return c.Interval != nil || c.Confs != nil || c.Missing != "" || c.Id != nil
 			case "net", "level":
 				return true
 			case "str", "cstr":
@@ -1553,6 +1701,6 @@ func main() {
 			}
 			return len(c.Locals) > 0
 		},
-		Rule: "boundary lists (0, +-1, 32767/32768, 65535/65536, 2^31, 2^63, 2^64, int64-overflow edge per duration unit) x {file, env} loader x field for ports and durations; substrateNetwork at the uint16 edges x {direct, file, env}; interval x confirmations grid x {evm, substrate, btc} x {constructor directly, via file loader, via env loader} with missing-required-field variants; the complete two-key local/shared state matrix (absent, local only, shared only, equal, different, empty-vs-set, set-vs-empty, empty only, both empty) plus random 0..3-chain configurations with unknown ids, missing id/type, int and float ids; chain ids over 0..3, 255..258, 511..513, 65535..65537, 2^31, 2^32+1, negative, non-integral and string ids against shared configurations holding the same id, none, only a congruent id (mod 2^8 / 2^16 / 2^32, truncated / rounded), or the congruent id before the equal one; after every accepted chain config the start-block computation is run on the config's own pointers three times and String() once and ALL fields of the config object are compared by value with a snapshot taken right after loading; the 12 string-valued relayer settings (opentelemetry url, log file, env, id, key share paths, MPC key, topology encryption key / url / path, uploader url / token) x {file, env} x a catalogue of texts ('=' anywhere, '==' at the end, URL punctuation, '_' and the SYG prefix inside the value, blanks, quotes, JSON/shell meta characters, texts that look like numbers/bools/null, unicode, 4 kB) one at a time and all at once with pairwise different texts (rotated catalogue + random texts, settings left out / empty); log level names and non-names; string, bool and handler-list settings of evm/substrate/btc chain entries through the constructor directly, the file loader and SYG_CHAINS; distinct = distinct input JSON; non-trivial = text of the modelled grammar / at least one numeric setting or a missing required field / at least one local chain",
+		Rule: "boundary lists (0, +-1, 32767/32768, 65535/65536, 2^31, 2^63, 2^64, int64-overflow edge per duration unit) x {file, env} loader x field for ports and durations; substrateNetwork at the uint16 edges x {direct, file, env}; interval x confirmations grid x {evm, substrate, btc} x {constructor directly, via file loader, via env loader} with missing-required-field variants; the chain id through the same three constructors x three paths: 0, 1, 2, 254, 255, 256, 257, 511, 513, 65535, 65537, 2^31, 2^32+1, 2^53, -1, -255 (float64 and Go int), 3/2, 511/2, 513/2, 1/2, -1/2, 1025/1024, integers spelled as floats (1.0, 255.0, 256.0, 257.0), ids written as strings / bools, and random ids (in range, congruent to an id in range mod 256, negative, fractional) combined with other settings and missing fields; the complete two-key local/shared state matrix (absent, local only, shared only, equal, different, empty-vs-set, set-vs-empty, empty only, both empty) plus random 0..3-chain configurations with unknown ids, missing id/type, int and float ids; chain ids over 0..3, 255..258, 511..513, 65535..65537, 2^31, 2^32+1, negative, non-integral and string ids against shared configurations holding the same id, none, only a congruent id (mod 2^8 / 2^16 / 2^32, truncated / rounded), or the congruent id before the equal one; after every accepted chain config the start-block computation is run on the config's own pointers three times and String() once and ALL fields of the config object are compared by value with a snapshot taken right after loading; the 12 string-valued relayer settings (opentelemetry url, log file, env, id, key share paths, MPC key, topology encryption key / url / path, uploader url / token) x {file, env} x a catalogue of texts ('=' anywhere, '==' at the end, URL punctuation, '_' and the SYG prefix inside the value, blanks, quotes, JSON/shell meta characters, texts that look like numbers/bools/null, unicode, 4 kB) one at a time and all at once with pairwise different texts (rotated catalogue + random texts, settings left out / empty); log level names and non-names; string, bool and handler-list settings of evm/substrate/btc chain entries through the constructor directly, the file loader and SYG_CHAINS; distinct = distinct input JSON; non-trivial = text of the modelled grammar / at least one numeric setting or a missing required field / at least one local chain",
 	})
 }
